@@ -357,7 +357,9 @@ def pin_container_tree_type_amalgam1 : List String := ["type amalgam1[K any, V a
 
 /-- type `backwardIterator` of `container/tree`: one line per field / method -/
 def pin_container_tree_type_backwardIterator : List String := ["type backwardIterator[K any, V any] struct",
-  "c cursor[K, V]"]
+  "c cursor[K, V]",
+  "inRange func(K) bool",
+  "done bool"]
 
 /-- type `boundType` of `container/tree`: one line per field / method -/
 def pin_container_tree_type_boundType : List String := ["type boundType int"]
@@ -379,7 +381,9 @@ def pin_container_tree_type_cursor : List String := ["type cursor[K any, V any] 
 
 /-- type `forwardIterator` of `container/tree`: one line per field / method -/
 def pin_container_tree_type_forwardIterator : List String := ["type forwardIterator[K any, V any] struct",
-  "c cursor[K, V]"]
+  "c cursor[K, V]",
+  "inRange func(K) bool",
+  "done bool"]
 
 /-- type `node` of `container/tree`: one line per field / method -/
 def pin_container_tree_type_node : List String := ["type node[K any, V any] struct",
